@@ -1,11 +1,43 @@
 /-
-C19 — model of opentype/gtab/builder/explain.go (ExplainGsub for GSUB 1–4, explainFlags,
-glyph/glyph-list/glyph-set notation, mapping lists with ranges).  Core-only.
-Output is the byte string `ExplainGsub` returns.
+C19 — model of opentype/gtab/builder/explain.go (ExplainGsub for GSUB 1–4, ExplainGpos for
+GPOS 1–2, explainFlags, glyph / glyph-list / glyph-set notation, mapping lists with ranges,
+value records, class lists).  Core-only.
+
+The printer is modelled as a producer of *pieces*: white space and lexemes (item kind and the
+runes of its text).  The text `ExplainGsub` returns is the concatenation of the bytes of the
+pieces (`renderBytes`); it is compared byte for byte with the Go output (stream dsl.explain).
+Stating the printer this way makes the lexing of its output provable once and for all
+(`Proofs/DslLexer`): the lexer turns the rendered pieces back into exactly the lexemes.
 -/
 import SfntV.Model.DslParse
 
 namespace SfntV.Dsl
+
+inductive Piece where
+  /-- blanks and tabs -/
+  | ws (rbs : List RB)
+  /-- a lexeme: the item kind the lexer is to find, and its text -/
+  | tok (typ : Nat) (val : List RB)
+deriving Repr, DecidableEq
+
+def Piece.rbs : Piece → List RB
+  | .ws r => r
+  | .tok _ v => v
+
+def render (ps : List Piece) : List RB := ps.flatMap Piece.rbs
+
+def renderBytes (ps : List Piece) : List Nat := (render ps).flatMap (·.2)
+
+/-- an ASCII character as a rune with its byte -/
+def a1 (c : Nat) : RB := (c, [c])
+
+def sp : Piece := .ws [a1 32]
+def tab : Piece := .ws [a1 9]
+/-- a lexeme with ASCII text -/
+def tk (typ : Nat) (s : List Nat) : Piece := .tok typ (ascii s)
+def eolP : Piece := tk tEOL [10]
+def commaP : Piece := tk tComma [44]
+def hyphenP : Piece := tk tHyphen [45]
 
 /-- `string([]rune{r})`: UTF-8, with U+FFFD for surrogates and values above U+10FFFF -/
 def utf8Encode (r : Nat) : List Nat :=
@@ -18,9 +50,12 @@ def utf8Encode (r : Nat) : List Nat :=
 /-- `strconv.IsPrint` -/
 def isPrint (r : Nat) : Bool := if r < 128 then inR 32 126 r else inRanges Gen.dslPrintRanges r
 
-/-- `fmt.Sprintf("%q", string([]rune{r}))` for a printable rune -/
-def quoted (r : Nat) : List Nat :=
-  [34] ++ (if r == 34 then [92, 34] else if r == 92 then [92, 92] else utf8Encode r) ++ [34]
+/-- the text of a printable rune inside `%q` quotes -/
+def escRB (r : Nat) : List RB :=
+  if r == 34 then [a1 92, a1 34] else if r == 92 then [a1 92, a1 92] else [(r, utf8Encode r)]
+
+/-- a quoted string item for the runes `rs` -/
+def strP (rs : List Nat) : Piece := .tok tString (a1 34 :: (rs.flatMap escRB ++ [a1 34]))
 
 def decimalAux : Nat → Nat → List Nat → List Nat
   | 0, _, acc => acc
@@ -31,52 +66,60 @@ def decimalAux : Nat → Nat → List Nat → List Nat
 def decimal (n : Nat) : List Nat := decimalAux 40 n []
 
 structure Explainer where
-  mapped : List (List Nat)
+  /-- for every glyph the rune whose quoted form `newExplainer` stored, if any -/
+  mapped : List (Option Nat)
+  /-- glyph names; `[]` = the glyph is written as its number -/
   names : List (List Nat)
 
-/-- `newExplainer`: for every glyph the quoted form of the largest printable rune mapped to it
-(the loop runs over the code range in ascending order, later runes overwrite), and the glyph
-name or else the glyph id in decimal. -/
+/-- `newExplainer`: for every glyph the largest printable rune mapped to it (the loop runs over
+the code range in ascending order, later runes overwrite; runes that are not printable are
+skipped since the repair of DESIGN §9 #29), and the glyph name or else the glyph id. -/
 def newExplainer (f : Font) : Explainer :=
   let gids := List.range f.numGlyphs
   { mapped := gids.map fun g =>
       let rs := (f.cmap.filter fun p => p.2 == g && g != 0 && isPrint p.1).map (·.1)
       match rs with
-      | [] => []
-      | r :: more => quoted (more.foldl max r)
-    names := gids.map fun g =>
-      let n := f.names.getD g []
-      if n != [] then n else decimal g }
+      | [] => none
+      | r :: more => some (more.foldl max r)
+    names := gids.map fun g => f.names.getD g [] }
 
-def Explainer.name (e : Explainer) (g : Nat) : List Nat := e.names.getD g []
-def Explainer.map (e : Explainer) (g : Nat) : List Nat := e.mapped.getD g []
+def Explainer.mapOf (e : Explainer) (g : Nat) : Option Nat := (e.mapped.getD g none)
+def Explainer.nameOf (e : Explainer) (g : Nat) : List Nat := e.names.getD g []
 
-def Explainer.writeGlyph (e : Explainer) (g : Nat) : List Nat :=
-  if [34] ++ e.name g ++ [34] == e.map g then e.name g
-  else if e.map g != [] then e.map g
-  else e.name g
+/-- `ee.names[gid]` as a lexeme: the name (an identifier) or the number -/
+def Explainer.nameP (e : Explainer) (g : Nat) : Piece :=
+  if e.nameOf g != [] then .tok tIdentifier (decodeUtf8 (e.nameOf g)) else tk tInteger (decimal g)
 
-def sp : List Nat := [32]
+def Explainer.nameBytes (e : Explainer) (g : Nat) : List Nat :=
+  if e.nameOf g != [] then e.nameOf g else decimal g
 
-def Explainer.writeGlyphList (e : Explainer) (seq : List Nat) : List Nat :=
+/-- `writeGlyph`: the bare name if the quoted form is just the name in quotes, else the quoted
+rune if there is one, else the name -/
+def Explainer.writeGlyph (e : Explainer) (g : Nat) : Piece :=
+  match e.mapOf g with
+  | some r => if e.nameBytes g == (escRB r).flatMap (·.2) then e.nameP g else strP [r]
+  | none => e.nameP g
+
+def Explainer.writeGlyphList (e : Explainer) (seq : List Nat) : List Piece :=
   match seq with
   | [] => []
-  | [g] => e.writeGlyph g
+  | [g] => [e.writeGlyph g]
   | _ =>
-    if seq.all fun g => e.map g != [] then
-      [34] ++ seq.flatMap (fun g => ((e.map g).drop 1).dropLast) ++ [34]
-    else (seq.map e.name).intersperse sp |>.flatten
+    if seq.all fun g => (e.mapOf g).isSome then [strP (seq.filterMap e.mapOf)]
+    else (seq.map e.nameP).intersperse sp
 
-def Explainer.writeGlyphSet (e : Explainer) (seq : List Nat) : List Nat :=
-  [91] ++ e.writeGlyphList seq ++ [93]
+def Explainer.writeGlyphSet (e : Explainer) (seq : List Nat) : List Piece :=
+  [tk tSquareBracketOpen [91]] ++ e.writeGlyphList seq ++ [tk tSquareBracketClose [93]]
 
-/-- explain.go explainFlags over the regenerated table `dslExplainFlagsC` -/
-def explainFlags (flags : Nat) : List Nat :=
-  Gen.dslExplainFlagsC.flatMap fun e => if flags &&& e.1 != 0 then e.2 else []
+/-- explain.go explainFlags over the regenerated table `dslExplainFlagsC` (each entry is
+`" -"` followed by the spelling: `C19_flags_same_spelling`) -/
+def explainFlags (flags : Nat) : List Piece :=
+  Gen.dslExplainFlagsC.flatMap fun e =>
+    if flags &&& e.1 != 0 then [sp, hyphenP, tk tIdentifier (e.2.drop 2)] else []
 
 abbrev Mapping := List Nat × List Nat
 
-def arrow : List Nat := [32, 45, 62, 32]
+def arrow : List Piece := [sp, tk tArrow [45, 62], sp]
 
 /-- length of the run of consecutive single-glyph mappings with constant offset at the head -/
 def rangeLenAux (delta : Nat) : Nat → List Mapping → Nat
@@ -87,8 +130,10 @@ def rangeLenAux (delta : Nat) : Nat → List Mapping → Nat
     if from_ != (prev + 1) % 65536 || to != (from_ + delta) % 65536 then 0
     else 1 + rangeLenAux delta from_ rest
 
+def Explainer.rangeP (e : Explainer) (a b : Nat) : List Piece := [e.nameP a, sp, hyphenP, sp, e.nameP b]
+
 def Explainer.seqMappingsAux (e : Explainer) (useRanges : Bool) :
-    Nat → List Mapping → List Nat → List Nat
+    Nat → List Mapping → List Piece → List Piece
   | 0, _, _ => []
   | _, [], _ => []
   | fuel + 1, m :: rest, sep =>
@@ -100,20 +145,19 @@ def Explainer.seqMappingsAux (e : Explainer) (useRanges : Bool) :
       else 1
     if rangeLen > 2 then
       let lastM := mm.getD (rangeLen - 1) m
-      sep ++ e.name (m.1.headD 0) ++ [32, 45, 32] ++ e.name (lastM.1.headD 0) ++ arrow ++
-        e.name (m.2.headD 0) ++ [32, 45, 32] ++ e.name (lastM.2.headD 0) ++
-        e.seqMappingsAux useRanges fuel (mm.drop rangeLen) [44, 32]
+      sep ++ e.rangeP (m.1.headD 0) (lastM.1.headD 0) ++ arrow ++ e.rangeP (m.2.headD 0) (lastM.2.headD 0) ++
+        e.seqMappingsAux useRanges fuel (mm.drop rangeLen) [commaP, sp]
     else
       sep ++ e.writeGlyphList m.1 ++ arrow ++ e.writeGlyphList m.2 ++
-        e.seqMappingsAux useRanges fuel rest [44, 32]
+        e.seqMappingsAux useRanges fuel rest [commaP, sp]
 
 /-- `explainSeqMappings` (the mappings arrive stably sorted by their first input glyph) -/
-def Explainer.seqMappings (e : Explainer) (mm : List Mapping) (useRanges : Bool) : List Nat :=
-  e.seqMappingsAux useRanges mm.length mm sp
+def Explainer.seqMappings (e : Explainer) (mm : List Mapping) (useRanges : Bool) : List Piece :=
+  e.seqMappingsAux useRanges mm.length mm [sp]
 
-/-- `i == 0 ? " " : ", "` then glyph, arrow, right-hand side -/
-def entries (items : List (List Nat)) : List Nat :=
-  (items.zipIdx.map fun (x, i) => (if i == 0 then sp else [44, 32]) ++ x).flatten
+/-- `i == 0 ? " " : ", "` before every entry -/
+def entries (items : List (List Piece)) : List Piece :=
+  (items.zipIdx.map fun (x, i) => (if i == 0 then [sp] else [commaP, sp]) ++ x).flatten
 
 /-- `fmt.Sprintf("%+d", v)` -/
 def signed (v : Int) : List Nat :=
@@ -122,21 +166,21 @@ def signed (v : Int) : List Nat :=
   | Int.negSucc n => 45 :: decimal (n + 1)
 
 /-- `writeValueRecord` -/
-def writeValueRecord : Option VR → List Nat
-  | none => [95]
+def writeValueRecord : Option VR → List Piece
+  | none => [tk tIdentifier kwUnderscore]
   | some r =>
-    let parts :=
-      (if r.x != 0 then [[120] ++ signed r.x] else []) ++
-      (if r.y != 0 then [[121] ++ signed r.y] else []) ++
-      (if r.dx != 0 then [[100, 120] ++ signed r.dx] else []) ++
-      (if r.dy != 0 then [[100, 121] ++ signed r.dy] else [])
-    if parts.isEmpty then [95] else (parts.intersperse sp).flatten
+    let parts : List (List Piece) :=
+      (if r.x != 0 then [[tk tIdentifier kwX, tk tInteger (signed r.x)]] else []) ++
+      (if r.y != 0 then [[tk tIdentifier kwY, tk tInteger (signed r.y)]] else []) ++
+      (if r.dx != 0 then [[tk tIdentifier kwDx, tk tInteger (signed r.dx)]] else []) ++
+      (if r.dy != 0 then [[tk tIdentifier kwDy, tk tInteger (signed r.dy)]] else [])
+    if parts.isEmpty then [tk tIdentifier kwUnderscore] else (parts.intersperse [sp]).flatten
 
 /-- `writePairAdjust` -/
-def writePairAdjust (p : PairAdj) : List Nat :=
+def writePairAdjust (p : PairAdj) : List Piece :=
   writeValueRecord p.1 ++ (match p.2 with
     | none => []
-    | some r => [32, 38, 32] ++ writeValueRecord (some r))
+    | some r => [sp, tk tAmpersand [38], sp] ++ writeValueRecord (some r))
 
 /-- `classdef.Table.Glyphs()[1:]`: for the classes 1 … max, their glyphs in ascending order -/
 def classGlyphs (tbl : List (Nat × Nat)) : List (List Nat) :=
@@ -144,66 +188,68 @@ def classGlyphs (tbl : List (Nat × Nat)) : List (List Nat) :=
     sortUnique ((tbl.filter fun p => p.2 == c + 1).map (·.1))
 
 /-- `first`/`second` class lists: `" A B, C"` -/
-def Explainer.classList (e : Explainer) (tbl : List (Nat × Nat)) : List Nat :=
+def Explainer.classList (e : Explainer) (tbl : List (Nat × Nat)) : List Piece :=
   ((classGlyphs tbl).zipIdx.map fun (gg, i) =>
-    (if i > 0 then [44] else []) ++ sp ++ e.writeGlyphList gg).flatten
+    (if i > 0 then [commaP] else []) ++ [sp] ++ e.writeGlyphList gg).flatten
 
-/-- the part of a GPOS subtable after the header or the `||` separator (`i` = index) -/
-def Explainer.gposSubtable (e : Explainer) (i : Nat) : Subtable → List Nat
-  | .gpos1_1 cov adj => sp ++ e.writeGlyphSet cov ++ arrow ++ writeValueRecord adj
-  | .gpos1_2 cov adj =>
-    entries ((cov.zip adj).map fun p => e.writeGlyph p.1 ++ arrow ++ writeValueRecord p.2)
-  | .gpos2_1 pairs =>
-    entries (pairs.map fun p => e.writeGlyphList [p.1.1, p.1.2] ++ arrow ++ writePairAdjust p.2)
-  | .gpos2_2 cov c1 c2 adjust =>
-    (if i == 0 then [10, 9] else []) ++ [47] ++ e.writeGlyphList cov ++ [47] ++ [10, 9] ++
-      [102, 105, 114, 115, 116] ++ e.classList c1 ++ [59, 10, 9] ++
-      [115, 101, 99, 111, 110, 100] ++ e.classList c2 ++ [59] ++
-      (adjust.map fun row =>
-        [10, 9] ++ ((row.map writePairAdjust).intersperse [44, 32]).flatten ++ [59]).flatten
-  | _ => []
+def semiP : Piece := tk tSemicolon [59]
 
-def Explainer.gposLookup (e : Explainer) (l : Lookup) : List Nat :=
-  let head := [71, 80, 79, 83] ++ decimal l.typ ++ [58] ++ explainFlags l.flags
-  (l.subtables.zipIdx.map fun (st, i) =>
-      (if i == 0 then head else [32, 124, 124, 10, 9]) ++ e.gposSubtable i st).flatten
-
-/-- `strings.Join(ExplainGpos(font), "\n")` -/
-def explainGpos (f : Font) (ls : List Lookup) : List Nat :=
-  let e := newExplainer f
-  ((ls.map e.gposLookup).intersperse [10]).flatten
-
-def Explainer.subtable (e : Explainer) : Subtable → List Nat
+def Explainer.subtable (e : Explainer) (i : Nat) : Subtable → List Piece
   | .gsub1_1 cov delta =>
     e.seqMappings (cov.map fun g => ([g], [(g + delta) % 65536])) true
   | .gsub1_2 cov subst =>
     e.seqMappings ((cov.zip subst).map fun p => ([p.1], [p.2])) true
   | .gsub2_1 cov repl =>
-    entries ((cov.zip repl).map fun p => e.writeGlyph p.1 ++ arrow ++ e.writeGlyphList p.2)
+    entries ((cov.zip repl).map fun p => [e.writeGlyph p.1] ++ arrow ++ e.writeGlyphList p.2)
   | .gsub3_1 cov alt =>
-    entries ((cov.zip alt).map fun p => e.writeGlyph p.1 ++ arrow ++ e.writeGlyphSet p.2)
+    entries ((cov.zip alt).map fun p => [e.writeGlyph p.1] ++ arrow ++ e.writeGlyphSet p.2)
   | .gsub4_1 cov repl =>
     e.seqMappings ((cov.zip repl).flatMap fun p => p.2.map fun lig => (p.1 :: lig.1, [lig.2])) false
-  | _ => []
+  | .gpos1_1 cov adj => [sp] ++ e.writeGlyphSet cov ++ arrow ++ writeValueRecord adj
+  | .gpos1_2 cov adj =>
+    entries ((cov.zip adj).map fun p => [e.writeGlyph p.1] ++ arrow ++ writeValueRecord p.2)
+  | .gpos2_1 pairs =>
+    entries (pairs.map fun p => e.writeGlyphList [p.1.1, p.1.2] ++ arrow ++ writePairAdjust p.2)
+  | .gpos2_2 cov c1 c2 adjust =>
+    (if i == 0 then [eolP, tab] else []) ++ [tk tSlash [47]] ++ e.writeGlyphList cov ++ [tk tSlash [47]] ++
+      [eolP, tab, tk tIdentifier kwFirst] ++ e.classList c1 ++ [semiP, eolP, tab, tk tIdentifier kwSecond] ++
+      e.classList c2 ++ [semiP] ++
+      (adjust.map fun row =>
+        [eolP, tab] ++ ((row.map writePairAdjust).intersperse [commaP, sp]).flatten ++ [semiP]).flatten
 
-def Explainer.lookup (e : Explainer) (l : Lookup) : List Nat :=
-  let head := [71, 83, 85, 66] ++ decimal l.typ ++ [58] ++ explainFlags l.flags
-  (l.subtables.zipIdx.map fun (st, i) =>
-      (if i == 0 then head else [32, 124, 124, 10, 9]) ++ e.subtable st).flatten ++ [10]
+/-- `" ||\n\t"` -/
+def orSep : List Piece := [sp, tk tOr [124, 124], eolP, tab]
+
+/-- `"GSUB%d:"` / `"GPOS%d:"`, flags, subtables -/
+def Explainer.lookupBody (e : Explainer) (kw : List Nat) (l : Lookup) : List Piece :=
+  let head := [tk tIdentifier (kw ++ decimal l.typ), tk tColon [58]] ++ explainFlags l.flags
+  (l.subtables.zipIdx.map fun (st, i) => (if i == 0 then head else orSep) ++ e.subtable i st).flatten
+
+/-- the pieces of `ExplainGsub` -/
+def explainGsubP (f : Font) (ls : List Lookup) : List Piece :=
+  let e := newExplainer f
+  ls.flatMap fun l => e.lookupBody [71, 83, 85, 66] l ++ [eolP]
+
+/-- the pieces of `strings.Join(ExplainGpos(font), "\n")` -/
+def explainGposP (f : Font) (ls : List Lookup) : List Piece :=
+  let e := newExplainer f
+  ((ls.map (e.lookupBody [71, 80, 79, 83])).intersperse [eolP]).flatten
 
 /-- `ExplainGsub` -/
-def explainGsub (f : Font) (ls : List Lookup) : List Nat :=
-  let e := newExplainer f
-  ls.flatMap e.lookup
+def explainGsub (f : Font) (ls : List Lookup) : List Nat := renderBytes (explainGsubP f ls)
 
-/-- the lookup as `Parse` gives it back: a format 1.2 table whose offsets are all equal is read
-as format 1.1 (the language does not say which format is meant) -/
+/-- `strings.Join(ExplainGpos(font), "\n")` -/
+def explainGpos (f : Font) (ls : List Lookup) : List Nat := renderBytes (explainGposP f ls)
+
 def normVR : Option VR → Option VR
   | some r => if r.x == 0 && r.y == 0 && r.dx == 0 && r.dy == 0 then none else some r
   | none => none
 
 def normPA (p : PairAdj) : PairAdj := (normVR p.1, normVR p.2)
 
+/-- the lookup as `Parse` gives it back: a format 1.2 table whose offsets are all equal is read
+as format 1.1 (the language does not say which format is meant); an all-zero value record is
+read as none -/
 def normSub : Subtable → Subtable
   | .gsub1_2 cov subst =>
     let ds := (cov.zip subst).map fun p => (p.2 + 65536 - p.1) % 65536
